@@ -308,6 +308,8 @@ mutual
     | .remove p t => simp only [execOp]; exact removeOp_rot p t cs
     | .farcallList items => simp only [execOp]; exact farcallListOp_rot cfg items cs
     | .raise => simp only [execOp]; exact ResRot.stop cs _
+    | .attempt body => simp only [execOp]; exact execOps_rot cfg body cs
+    | .loadBad p => simp only [execOp]; exact ResRot.stop cs _
   theorem execOps_rot (cfg : Cfg) (ops : List Op) (cs : CS) : ResRot (execOps cfg ops cs) := by
     match ops with
     | [] => simp only [execOps]; exact ResRot.stop cs none
